@@ -283,8 +283,97 @@ def poll_listens_on_kill_pipe(ctx, RK, P) -> None:
         ctx.check(cmp_ok, RK, f"reader wait `{name}` reports readiness of the inotify descriptor", "the wait's result is not `the inotify descriptor is among the readable ones`: after a wake-up through the kill pipe the reader would block in read(2), or skip reading when data is there", f"{ini.module.relpath}:{f.lineno}")
 
 
+MUTATING = ("pop", "popleft", "remove", "clear", "discard", "popitem", "append", "appendleft", "extend", "add", "update", "insert")
+
+
+def cursor_loops_advance(ctx, RULE, P) -> None:
+    """`while <test over local names, len() and constants>:` -- a decoder's cursor loop, a count-down: on every way round (the end
+    of the body, every `continue`) a name the test reads has been assigned or mutated in this iteration.  A way round that leaves them
+    all untouched meets the same test with the same values: the thread spins there for ever (holding whatever lock it holds)."""
+    n = 0
+    for fi in P.all_functions():
+        for loop in [x for x in ast.walk(fi.node) if isinstance(x, ast.While)]:
+            names = {x.id for x in ast.walk(loop.test) if isinstance(x, ast.Name) and isinstance(x.ctx, ast.Load)} - {"len", "True", "False", "None"}
+            pure = all(isinstance(x, (ast.Name, ast.Constant, ast.Compare, ast.BoolOp, ast.UnaryOp, ast.BinOp, ast.cmpop, ast.boolop, ast.unaryop, ast.operator, ast.expr_context)) or (isinstance(x, ast.Call) and isinstance(x.func, ast.Name) and x.func.id == "len" and not x.keywords) for x in ast.walk(loop.test))
+            if not names or not pure:
+                continue
+            # a nested function that rebinds the names (nonlocal) makes the local reasoning void: leave such loops alone
+            if any(isinstance(x, (ast.Nonlocal, ast.Global)) and set(x.names) & names for x in ast.walk(fi.node)):
+                continue
+            n += 1
+            bad: list[int] = []
+
+            def touches(st: ast.stmt) -> bool:
+                for x in ast.walk(st):
+                    if isinstance(x, ast.Name) and isinstance(x.ctx, (ast.Store, ast.Del)) and x.id in names:
+                        return True
+                    if isinstance(x, ast.Call) and isinstance(x.func, ast.Attribute) and x.func.attr in MUTATING and isinstance(x.func.value, ast.Name) and x.func.value.id in names:
+                        return True
+                return False
+
+            def block(stmts, touched: bool):
+                """-> touched at the normal end of the block, or None when every path has left it"""
+                for st in stmts:
+                    if isinstance(st, ast.Continue):
+                        if not touched:
+                            bad.append(st.lineno)
+                        return None
+                    if isinstance(st, (ast.Break, ast.Return, ast.Raise)):
+                        return None
+                    if isinstance(st, ast.If):
+                        t0 = touched or touches(ast.Expr(st.test))
+                        a, b = block(st.body, t0), block(st.orelse, t0)
+                        if a is None and b is None:
+                            return None
+                        touched = all(x for x in (a, b) if x is not None)
+                    elif isinstance(st, (ast.With, ast.AsyncWith)):
+                        r = block(st.body, touched or any(touches(ast.Expr(i.context_expr)) for i in st.items))
+                        if r is None:
+                            return None
+                        touched = r
+                    elif isinstance(st, ast.Try):
+                        r = block(st.body, touched)
+                        rs = [r] + [block(h.body, touched) for h in st.handlers]
+                        if r is not None and st.orelse:
+                            rs[0] = block(st.orelse, r)
+                        rs = [x for x in rs if x is not None]
+                        if st.finalbody:
+                            f = block(st.finalbody, all(rs) if rs else touched)
+                            if f is None or not rs:
+                                return None
+                            touched = f
+                        else:
+                            if not rs:
+                                return None
+                            touched = all(rs)
+                    elif isinstance(st, (ast.For, ast.While, ast.AsyncFor)):
+                        # an inner loop may run zero times; its own continue / break are its own
+                        inner_ret = any(isinstance(x, ast.Return) for x in ast.walk(st))
+                        _ = inner_ret
+                        touched = touched or touches(ast.Expr(st.iter if not isinstance(st, ast.While) else st.test))
+                    elif isinstance(st, (ast.FunctionDef, ast.AsyncFunctionDef, ast.ClassDef)):
+                        continue
+                    else:
+                        touched = touched or touches(st)
+                return touched
+
+            end = block(loop.body, False)
+            if end is False:
+                bad.append(loop.body[-1].end_lineno or loop.lineno)
+            ctx.check(
+                not bad,
+                RULE,
+                f"{fi.qualname}: `while {ast.unparse(loop.test)[:50]}`",
+                f"the loop goes round again at line(s) {sorted(set(bad))} without having assigned or mutated any of {sorted(names)} in that iteration: the test is met again with the same values and the thread spins there for ever; stop() / join() (and every call that needs a lock held around this loop) then never returns",
+                f"{fi.module.relpath}:{loop.lineno}",
+            )
+    ctx.count("cursor_loops", n)
+
+
 def run(ctx) -> None:
     P = ctx.P
+    RCL = ctx.rule("C06/cursor-loops-advance", "in every `while` loop whose test reads only local names, len() and constants (a decoder's cursor loop, a count-down), each way round -- the end of the body and every `continue` -- comes after an assignment to, or a mutation of, a name the test reads", floor=3)
+    cursor_loops_advance(ctx, RCL, P)
     RO = ctx.rule("C06/lock-order", "the graph 'lock B may be acquired while lock A is held' (through resolved calls) is acyclic", floor=1)
     RW = ctx.rule("C06/no-wait-under-needed-lock", "no join() / blocking wait is executed while holding a lock that the joined thread's body, or the waker of that wait, acquires", floor=2)
     RK = ctx.rule("C06/every-block-has-a-waker", "for every library thread class: its stop() reaches, on every path consistent with the state in which the thread can block there, the waker of every untimed blocking site reachable from its run(), after the stop flag is set", floor=4)
